@@ -44,6 +44,11 @@ func infoOf(fn *ssa.Function) *fnInfo {
 	return fi
 }
 
+type pointKey struct {
+	g   int
+	ins ssa.Instruction
+}
+
 type armedWait struct {
 	at, d *Term
 	kind  string
@@ -77,6 +82,10 @@ type Interp struct {
 	deadlock string
 	schedExp bool // explore schedules at synchronisation points
 	preempts, preemptBound int
+	schedCoarse            bool
+	curIns                 ssa.Instruction
+	pointSeen              map[pointKey]int
+	pickRot                int
 
 	// side tables (fresh per path)
 	mutexes    map[*Value]*mutexState
@@ -88,6 +97,7 @@ type Interp struct {
 	timerType    types.Type
 	nows         []*Term
 	armed        []armedWait
+	wraps        map[*Value]Value
 	tickBudget int
 	nowCount   int
 	lastNow    *Term
@@ -266,6 +276,7 @@ func (in *Interp) run(fr *frame) Value {
 		}
 		for _, ins := range blk.Instrs[nphi:] {
 			in.steps++
+			in.curIns = ins
 			if in.steps > in.maxStep {
 				panic(pathEnd{"UNWIND: step budget exceeded in " + fr.fn.String() + " at " + in.pos(ins)})
 			}
